@@ -104,8 +104,9 @@ def parse_duration(s):
     unit_pattern = "|".join(re.escape(unit) for unit in ParseDurationUnitFormat.list_values())
     pattern = rf"^\s*(\d+)\s*({unit_pattern})\s*$"
 
-    # case-insensitive regex matching
-    match = re.match(pattern, s, re.IGNORECASE)
+    # case-insensitive regex matching, ASCII only: under Unicode case folding
+    # "ſ" (U+017F) matches "s" and would then miss in time_map (KeyError)
+    match = re.match(pattern, s, re.IGNORECASE | re.ASCII)
     if not match:
         # Generate dynamic error message
         valid_units = ", ".join(f"'{value}'" for value in ParseDurationUnitFormat.list_values())
